@@ -24,6 +24,8 @@ def units(tier):
     return [("lokyverif.ets.units_exec", "slice_unit", dict(prop="C13", name="slice.tracker_race", builder="x9_tracker_race", K=44, timeout_s=1200)),
             H("C13", "lokyverif.harness.c11_tracker", "check_failing_cleanup", 400, ["loky.backend.resource_tracker:main"],
               "the end-of-life sweep destroys everything still counted also when warnings are errors in the tracker process (-W error inherited from the parent)"),
+            H("C13", M, "check_kill_window_f7", 200, ["loky.backend.synchronize:SemLock.__init__", "loky.backend.resource_tracker:main"],
+              "owner SIGKILLed after exactly 1 visible effect (sem_open done, REGISTER not yet sent): known finding F7"),
             H("C13", M, "check_kill_points", 400, ["loky.backend.synchronize:SemLock.__init__", "loky.backend.synchronize:SemLock._cleanup",
                                                    "loky.backend.resource_tracker:main"],
               "owner SIGKILLed after 2..4 of the externally visible effects (create, REGISTER, unlink, UNREGISTER) or never; early user unlink or not"),
